@@ -70,6 +70,9 @@ class SqlFluffTable(Table):
             else None
         )
         schema = Schema(parent_name) if parent_name is not None else Schema()
+        if parent_name is not None:
+            # every part is normalized already, a second pass would lower-case a quoted part
+            schema.raw_name = parent_name
         kwargs = {"alias": alias} if alias else {}
         return Table(real_name, schema, **kwargs)
 
